@@ -182,6 +182,8 @@ package sqlittle
 //@   modifies alloc
 //@   requires s != nil && s.WithoutRowid
 //@   ensures [ok] err == nil ==> CIS_OK(r0)
+//@   ensures [resolve] err == nil ==> len(r0) == len(columns) && (forall k int :: 0 <= k && k < len(columns) ==> COLIDX(s, columns[k]) >= 0 && !r0[k].rowid)
+//@   loop 1 invariant [resolve] len(res) == $i && (forall k int :: 0 <= k && k < $i ==> COLIDX(s, columns[k]) >= 0 && !res[k].rowid)
 //@   loop 1 invariant fresh(res)
 //@   loop 1 invariant forall qc int :: 0 <= qc && qc < len(res) ==> res[qc].rowid || (res[qc].col != nil && res[qc].rowIndex >= 0)
 
@@ -207,6 +209,9 @@ package sqlittle
 //@   loop 5 invariant forall qm int :: 0 <= qm && qm < $i ==> !streq(cols[qm], n)
 
 //@ func sqlittle.select_
+//@   ghost-entry scan_ok = true
+//@   ensures-before-exit [scanerr] !scan_ok ==> r0 != nil
+//@   ghost-exit scan_ok = old(scan_ok)
 //@   ghost-entry direct = false
 //@   ghost-exit direct = old(direct)
 //@   ghost-entry viaidx = false
@@ -226,6 +231,9 @@ package sqlittle
 //@   free-requires cb != nil && CIS_OK(ci) && !viaidx && !vianr
 
 //@ func sqlittle.selectNonRowid
+//@   ghost-entry scan_ok = true
+//@   ensures-before-exit [scanerr] !scan_ok ==> r0 != nil
+//@   ghost-exit scan_ok = old(scan_ok)
 //@   ghost-entry direct = false
 //@   ghost-exit direct = old(direct)
 //@   ghost-entry viaidx = false
@@ -285,6 +293,9 @@ package sqlittle
 //@ macro VIAROW(row) = ult(tfirst(tabroot, VIARID()), p_hi(tabroot)) && tb_rowid(tabroot, tfirst(tabroot, VIARID())) == VIARID() && rowfor(row, VIARID(), tb_payload(tabroot, tfirst(tabroot, VIARID())))
 
 //@ func sqlittle.indexedSelect
+//@   ghost-entry scan_ok = true
+//@   ensures-before-exit [scanerr] !scan_ok ==> r0 != nil
+//@   ghost-exit scan_ok = old(scan_ok)
 //@   ghost-entry direct = false
 //@   ghost-exit direct = old(direct)
 //@   props C02 C06 C12
@@ -312,6 +323,9 @@ package sqlittle
 //@   ghost-exit halt = halt || done
 
 //@ func sqlittle.indexedSelectEq
+//@   ghost-entry scan_ok = true
+//@   ensures-before-exit [scanerr] !scan_ok ==> r0 != nil
+//@   ghost-exit scan_ok = old(scan_ok)
 //@   ghost-entry direct = false
 //@   ghost-exit direct = old(direct)
 //@   props C03 C06 C12
@@ -382,6 +396,9 @@ package sqlittle
 // component-granular frame of the callback protocol cannot express, so their bodies are not verified
 // (listed as trusted in the evidence).
 //@ func sqlittle.indexedSelectNonRowid
+//@   ghost-entry scan_ok = true
+//@   ensures-before-exit [scanerr] !scan_ok ==> r0 != nil
+//@   ghost-exit scan_ok = old(scan_ok)
 //@   ghost-entry direct = false
 //@   ghost-exit direct = old(direct)
 //@   props C02 C06 C12
@@ -402,6 +419,9 @@ package sqlittle
 //@   implements functype db.RecordCB
 
 //@ func sqlittle.indexedSelectEqNonRowid
+//@   ghost-entry scan_ok = true
+//@   ensures-before-exit [scanerr] !scan_ok ==> r0 != nil
+//@   ghost-exit scan_ok = old(scan_ok)
 //@   ghost-entry direct = false
 //@   ghost-exit direct = old(direct)
 //@   props C03 C06 C12
@@ -441,10 +461,12 @@ package sqlittle
 //@   loop 1 invariant [grows] len(ind.Columns) >= old(len(ind.Columns))
 
 // Primary-key selects.
-// pkSelect: a failure of the rowid lookup is reported (C12), never turned into "no rows".
+// pkSelect: a failure of the rowid lookup is reported (C12), never turned into "no rows"; on a table
+// whose primary key is the rowid alias only an int64 key is a rowid (no silent conversion of other types).
 //@ func sqlittle.pkSelect
 //@   ghost-entry sr_failed = false
 //@   ensures-before-exit [reported] sr_failed ==> r0 != nil
+//@   ensures-before-exit [keytype] old(s.RowidPK) && (len(key) == 0 || !isInt64(old(key[0]))) ==> r0 != nil
 //@   ghost-exit sr_failed = old(sr_failed)
 //@   ghost-entry direct = true
 //@   ghost-entry halt = false
@@ -459,6 +481,9 @@ package sqlittle
 //@   requires [locked] lk_shared
 
 //@ func sqlittle.pkSelectNonRowid
+//@   ghost-entry scan_ok = true
+//@   ensures-before-exit [scanerr] !scan_ok ==> r0 != nil
+//@   ghost-exit scan_ok = old(scan_ok)
 //@   ghost-entry direct = false
 //@   ghost-exit direct = old(direct)
 //@   ghost-entry viaidx = false
@@ -542,9 +567,13 @@ package sqlittle
 //@   ensures [int] 0 <= i && i < len(r) && isInt64(r[i]) ==> result == fmt_int(asInt64(r[i]))
 //@   ensures [text] 0 <= i && i < len(r) && isString(r[i]) ==> result == asString(r[i])
 
+// last_int: the integer the last scanInt64 call produced.
+//@ ghost last_int_scan bv64
 //@ func (sqlittle.Row).scanInt64
 //@   props C18 C05
-//@   pure
+//@   modifies alloc last_int_scan
+//@   ghost-exit last_int_scan = r0
+//@   ensures [exported] last_int_scan == r0
 //@   requires ROWOK(r) && 0 <= i
 //@   ensures [missing] len(r) <= i ==> r0 == 0 && r1 == nil
 //@   ensures [null] 0 <= i && i < len(r) && isNilVal(r[i]) ==> r0 == 0 && r1 == nil
@@ -570,8 +599,12 @@ package sqlittle
 
 // Scan: for every destination k: nil destinations are skipped, unsupported ones are an error; the row
 // itself is not written (frame), and byte-slice destinations receive fresh memory.
+// Numeric destinations receive the scanned integer by Go's conversions; *bool is "not zero".
 //@ func (sqlittle.Row).Scan
 //@   props C18 C05
+//@   ghost-exit last_int_scan = old(last_int_scan)
+//@   loop 1 step [bool] hasType(v, "*bool") ==> (load(deref(v, "*bool")) <==> last_int_scan != 0)
+//@   loop 1 step [int64] hasType(v, "*int64") ==> load(deref(v, "*int64")) == last_int_scan
 //@   modifies box alloc M:bv8 time.Time.wall time.Time.ext time.Time.loc
 //@   requires ROWOK(r)
 //@   ensures [independent] r0 == nil ==> (forall qd int :: 0 <= qd && qd < len(args) && hasType(args[qd], "*[]uint8") ==> load(deref(args[qd], "*[]uint8")) == nil || fresh(load(deref(args[qd], "*[]uint8"))))
